@@ -5,6 +5,9 @@ in a function that now uses a definition which did not exist when the rules were
 shape (exit 2), not as a violation — extract-method and table-hoisting refactorings move the logic a rule looks for into
 definitions the rule knows nothing about.  Regenerate only together with a review of the rules."""
 import ast, json, os, sys
+if sys.version_info[:2] != (3, 12):
+    sys.exit("run with /venv/bin/python (3.12): ast.unparse spells nested f-string quotes differently in other versions, and the "
+             "drift guard compares against what ./check computes")
 ROOT = os.path.dirname(os.path.dirname(os.path.abspath(__file__)))
 sys.path.insert(0, ROOT)
 from sa.engine.core import Model
